@@ -46,17 +46,26 @@ def isCanon {w : Nat} (n : Nat) (a : Words w) : Bool :=
 
 def mw {w : Nat} (n : Nat) (a : Words w) : String := s!"{obs n a}/{ws a}"
 
+/-- the part of a `pair` line that depends on the first operand only -/
+def pairA {w : Nat} (n : Nat) (a : Words w) : String :=
+  let c := not n a
+  s!"na={mw n c} ha={hash64 a} hc={hash64 c} self={ws (or a a)}/{ws (and a a)}/{ws (xor a a)}/{b01 (eq a a)}{b01 (isSubsetEq a a)} canonc={b01 (isCanon n c)}"
+
+def pairB {w : Nat} (n : Nat) (a : Words w) (B : Nat) : String :=
+  let b : Words w := ofList n w (maskToList n B)
+  let o := or a b; let n_ := and a b; let x := xor a b
+  let e := eq a b
+  s!"or={mw n o} and={mw n n_} xor={mw n x} sub={b01 (isSubsetEq a b)} eq={b01 e} ne={b01 (ne a b)} " ++
+  s!"hx={hash64 x} canon={b01 (isCanon n o && isCanon n n_ && isCanon n x)} pure=1"
+
 def pairLine (n w A B : Nat) : String :=
   let a : Words w := ofList n w (maskToList n A)
-  let b : Words w := ofList n w (maskToList n B)
-  let o := or a b; let n_ := and a b; let x := xor a b; let c := not n a
-  let e := eq a b
-  s!"or={mw n o} and={mw n n_} xor={mw n x} na={mw n c} sub={b01 (isSubsetEq a b)} eq={b01 e} ne={b01 (ne a b)} " ++
-  s!"ha={hash64 a} hx={hash64 x} hc={hash64 c} self={ws (or a a)}/{ws (and a a)}/{ws (xor a a)}/{b01 (eq a a)}{b01 (isSubsetEq a a)} " ++
-  s!"canon={b01 (isCanon n o && isCanon n n_ && isCanon n x && isCanon n c)} pure=1"
+  pairB n a B ++ " " ++ pairA n a
 
 def pairsDigest (n w A : Nat) : String :=
-  let h := (List.range (2 ^ n)).foldl (fun h B => fnv h (pairLine n w A B)) fnvInit
+  let a : Words w := ofList n w (maskToList n A)
+  let sa := " " ++ pairA n a
+  let h := (List.range (2 ^ n)).foldl (fun h B => fnv h (pairB n a B ++ sa)) fnvInit
   "D " ++ hex64 h
 
 def bitLine (n w A i : Nat) : String :=
